@@ -197,18 +197,21 @@ Definition mdayset (ii : iinfo) (month : Z) : res (dayset * Z * Z) :=
   end.
 
 (* for j in range(7): dset[i] = i; i += 1; if wdaymask[i] == wkst: break *)
-Fixpoint wday_loop (n : nat) (wdm : list Z) (wk : Z) (ds : dayset) (i : Z) : res (dayset * Z) :=
+(* yo = self.yearordinal: the week that contains 9999-12-31 ends at date.max (fix 8ced7a9) *)
+Fixpoint wday_loop (n : nat) (wdm : list Z) (wk yo : Z) (ds : dayset) (i : Z) : res (dayset * Z) :=
   match n with
   | O => Ok (ds, i)
   | S k => do ds' <- py_set ds i (Some i);
            do w <- py_nth wdm (i + 1);
-           if w =? wk then Ok (ds', i + 1) else wday_loop k wdm wk ds' (i + 1)
+           if w =? wk then Ok (ds', i + 1)
+           else if max_ord <? yo + (i + 1) then Ok (ds', i + 1)
+           else wday_loop k wdm wk yo ds' (i + 1)
   end.
 
 Definition wdayset (rl : rule) (ii : iinfo) (year month day : Z) : res (dayset * Z * Z) :=
   do o <- date_ord year month day;
   let i := o - yearordinal ii in
-  do r <- wday_loop 7 (wdaymask ii) (wkst rl) (py_repeat None (yearlen ii + 7)) i;
+  do r <- wday_loop 7 (wdaymask ii) (wkst rl) (yearordinal ii) (py_repeat None (yearlen ii + 7)) i;
   Ok (fst r, i, snd r).
 
 Definition ddayset (ii : iinfo) (year month day : Z) : res (dayset * Z * Z) :=
